@@ -596,7 +596,9 @@ class Engine:
                         I.x = self.m.sizeof(at)
                     elif op == "getelementptr":
                         I.x = ll.GetGEPSourceElementType(i)
-                        # precompute constant part
+                        # all-constant indices: fold the offset at decode time
+                        if all(o[0] == "c" and isinstance(o[1], int) for o in I.a[1:]):
+                            I.text = self.gep_offset(I.x, [o[1] for o in I.a[1:]])
                     elif op in ("extractvalue", "insertvalue"):
                         ni = ll.GetNumIndices(i)
                         p = ll.GetIndices(i)
@@ -1526,8 +1528,11 @@ class Engine:
                 self.store(st, p, v, I.ty)
             elif op == "getelementptr":
                 base = self.val(fr, a[0])
-                idx = [self.val(fr, x) for x in a[1:]]
-                off = self.gep_offset(I.x, idx)
+                if I.text is not None:
+                    off = I.text
+                else:
+                    idx = [self.val(fr, x) for x in a[1:]]
+                    off = self.gep_offset(I.x, idx)
                 if not isinstance(base, Ptr):
                     base = Ptr(0, base)
                 env[I.dst] = Ptr(base.obj, self.add_off(base.off, off, 1)) if (is_sym(off) or off) else base
